@@ -252,7 +252,14 @@ func NewEntMonitor(e *Env, filter func(rule string) bool) (*EntModel, *Monitor) 
 	for _, i := range e.L.Opts.Whitelist {
 		wl = append(wl, e.L.Accts[i].Addr.String())
 	}
+	wl = append(wl, e.L.Opts.ExtraWhitelist...)
 	m := NewEntModel(e.L.Opts.PoStartID, wl, viol)
+	// orders already present in the genesis document (raised, undecided)
+	for _, gp := range e.L.Opts.GenesisPOs {
+		po := &entPO{ID: gp.Id, Purchaser: ownerHex(gp.Purchaser), Amount: gp.Amount, Status: gp.Status, RaiseTime: gp.RaiseTime}
+		m.POs[po.ID] = po
+		m.order = append(m.order, po.ID)
+	}
 	mon := &Monitor{Name: "ent"}
 	mon.AfterBegin = func(e *Env, pre, post *lab.Obs, resp abci.ResponseBeginBlock) {
 		completing := m.BeginBlock(pre.EntParams, uint64(post.Time))
